@@ -365,6 +365,14 @@ func c17Replay(check string, raw json.RawMessage) ([]disc, error) {
 		ds, _, _ := e.createHost(strings.TrimPrefix(cs.Name, "host-style "))
 		return append(ds, e.checkList()...), nil
 	}
+	if strings.HasPrefix(cs.Name, "auto-bucket ") {
+		e.st.Close()
+		e = &c17Env{st: backends.Must(cs.Backend, backends.Options{AutoBucket: true}), created: map[string]bool{}}
+		defer e.st.Close()
+		nm := strings.TrimPrefix(cs.Name, "auto-bucket ")
+		ds, _, _ := e.createVia(nm, &s3x.Req{Method: "PUT", Path: "/" + nm}, " (server with the auto-bucket option)")
+		return append(ds, e.checkList()...), nil
+	}
 	if strings.HasPrefix(cs.Name, "in-flight ") {
 		ds, _ := c17InFlight(e, strings.TrimPrefix(cs.Name, "in-flight "))
 		return ds, nil
@@ -401,7 +409,7 @@ func TestC17(t *testing.T) {
 	runProp(t, propDef{
 		ID:    "C17",
 		Level: "exploration",
-		Rule: "cases = (backend in {mem, bolt, fs-multi}, bucket name) created through HTTP PUT /<name>; exhaustive: all strings over {a,z,0,9,-,.,A,_} up to length L (L=5 quick: 37448 names, L=6 thorough: 299592 names), " +
+		Rule: "cases = (backend in {mem, bolt, fs-multi}, bucket name) created through HTTP PUT /<name> (also as the label of a Host header, and on mem/bolt servers with the auto-bucket option); exhaustive: all strings over {a,z,0,9,-,.,A,_} up to length L (L=5 quick: 37448 names, L=6 thorough: 299592 names), " +
 			"all lengths 1..70 of valid characters, dotted multi-label names with label lengths 1-4, IPv4/IPv6-looking names; rapid: random strings incl. UTF-8 and URL-reserved characters; " +
 			"oracle written from the statement (not the regexp); ListBuckets must equal the set of names created (checked every 64 names and at the end, after requests other than create-bucket that spell a bucket in odd ways, after objects of 0 B to 1 MiB / a multipart upload / a copy were stored, " +
 			"while the body of a put / part / form upload is still arriving, and after a bucket was deleted again (plainly or forced, used or not): it is not listed, requests to it do not bring it back, its name can be created again); non-trivial = the name is within one edit (over the alphabet) of the valid/invalid boundary; distinct by (backend, name)",
@@ -421,6 +429,16 @@ func c17Run(t *testing.T, c *evid.Collector) {
 	// host base s3.test)
 	hostEnv := &c17Env{st: backends.Must(backends.Mem, backends.Options{HostBases: []string{"s3.test"}}), created: map[string]bool{}}
 	defer hostEnv.st.Close()
+	// ... and when the server creates buckets on demand for other requests (auto-bucket option): the
+	// create-bucket operation itself decides as ever (key-value backends)
+	var autoEnvs []*c17Env
+	for _, k := range kinds {
+		if k == backends.Mem || k == backends.Bolt {
+			ae := &c17Env{st: backends.Must(k, backends.Options{AutoBucket: true}), created: map[string]bool{}}
+			defer ae.st.Close()
+			autoEnvs = append(autoEnvs, ae)
+		}
+	}
 	n := 0
 	valid := 0
 	one := func(name, src string) bool {
@@ -461,6 +479,22 @@ func c17Run(t *testing.T, c *evid.Collector) {
 			}
 			if n%64 == 0 {
 				if report(c, "listbuckets", hostEnv.checkList(), cs) {
+					bad = true
+				}
+			}
+		}
+		for _, ae := range autoEnvs {
+			ds, verdict, acc := ae.createVia(name, &s3x.Req{Method: "PUT", Path: "/" + name}, " (server with the auto-bucket option)")
+			if firstAcc != nil && *firstAcc != acc {
+				ds = append(ds, disc{Kind: "options-differ", Detail: fmt.Sprintf("name=%q on %s: accepted=%v, with the auto-bucket option accepted=%v", name, ae.st.Kind, *firstAcc, acc)})
+			}
+			cs := c17Case{ae.st.Kind, "auto-bucket " + name}
+			c.Case(evid.FP("auto-bucket", string(ae.st.Kind), name), nb, func() interface{} { return cs }, "backend:"+string(ae.st.Kind), "src:"+src, "auto-bucket", fmt.Sprintf("verdict:%d", verdict))
+			if report(c, "create", ds, cs) {
+				bad = true
+			}
+			if n%64 == 0 {
+				if report(c, "listbuckets", ae.checkList(), cs) {
 					bad = true
 				}
 			}
